@@ -7,6 +7,7 @@ import (
 	"encoding/json"
 	"fmt"
 	"math/big"
+	"runtime/debug"
 	"sort"
 	"time"
 
@@ -147,6 +148,25 @@ type Replica struct {
 	Opts ReplicaOpts
 	// restart bookkeeping
 	Restarts int
+	// Stalled replicas do not take part in block execution until they catch up
+	// from the block log (a lagging node / a late joiner).
+	Stalled bool
+	Height  int64 // last committed height
+	// FirstBegin is the height of the first BeginBlock this process executed
+	// (0 = none yet since the last (re)start).
+	FirstBegin int64
+}
+
+func (r *Replica) live() bool { return r.App != nil && !r.Stalled }
+
+// LoggedBlock is what the consensus stub's block store keeps of a committed
+// block: inputs, and the results agreed on (those of replica 0).
+type LoggedBlock struct {
+	Req     abci.RequestBeginBlock
+	Txs     [][]byte
+	Results []TxResult
+	ValUpd  string
+	AppHash []byte
 }
 
 // TxResult is what the comparator and the oracles see of one DeliverTx.
@@ -178,8 +198,15 @@ type World struct {
 	valByPub map[string]*Validator
 
 	BlockTxs   [][]byte // txs delivered in the open block (for mid-block restarts)
+	BlockRes   []TxResult
 	BlockReq   abci.RequestBeginBlock
 	LastResult TxResult
+	InBlock    bool
+	BlockLog   []LoggedBlock // block store: index i holds height i+1
+	KeepLog    bool
+	// OnBoundary is called between Commit of block H and BeginBlock of H+1.
+	OnBoundary func(w *World) *Violation
+	genesis    []byte
 
 	Stats   *Stats
 	Trace   *Trace
@@ -187,7 +214,35 @@ type World struct {
 
 	// Ext is profile-private model state.
 	Ext map[string]any
+
+	extras map[int]*Account
 }
+
+// Acct returns account i. Indices >= NAccts denote "extra" identities that do
+// not exist at genesis (fresh recipients, vesting accounts created by messages).
+func (w *World) Acct(i int) *Account {
+	if i < 0 {
+		i = -i
+	}
+	if i < len(w.Accts) {
+		return w.Accts[i]
+	}
+	if w.extras == nil {
+		w.extras = map[int]*Account{}
+	}
+	if a, ok := w.extras[i]; ok {
+		return a
+	}
+	a := NewAccount(KeySeed, i)
+	w.extras[i] = a
+	return a
+}
+
+// NExtra is the number of extra identities profiles draw from.
+const NExtra = 4
+
+// AnyAcct draws an account index over genesis accounts and extras.
+func (w *World) AnyAcct(r *RNG) int { return r.Intn(len(w.Accts) + NExtra) }
 
 func keyMaterial(seed uint64, role string, i int) []byte {
 	h := sha256.Sum256(append(append(u64b(seed), []byte(role)...), u64b(uint64(i))...))
@@ -247,6 +302,8 @@ func NewWorld(cfg Config) (*World, error) {
 	if err != nil {
 		return nil, err
 	}
+	w.genesis = gen
+	w.KeepLog = cfg.Replicas > 1
 	for i := 0; i < cfg.Replicas; i++ {
 		var o ReplicaOpts
 		if i < len(cfg.ReplicaOpts) {
@@ -330,6 +387,7 @@ func (w *World) newApp(r *Replica) *app.Haqq {
 	if r.Opts.IAVLCache != 0 {
 		bopts = append(bopts, baseapp.SetIAVLCacheSize(r.Opts.IAVLCache))
 	}
+	r.FirstBegin = 0
 	return app.NewHaqq(log.NewNopLogger(), r.DB, nil, true, map[int64]bool{}, app.DefaultNodeHome,
 		r.Opts.InvCheckPeriod, enc, opts, bopts...)
 }
@@ -491,6 +549,15 @@ func (w *World) beginBlock(dt time.Duration, f BlockFaults) error {
 		if v == nil {
 			continue
 		}
+		// The SDK assumes the unbonding period outlasts CometBFT's validator-set
+		// update delay. Swarm-drawn unbonding times of seconds combined with clock
+		// jumps of days violate that assumption, so validators that staking has
+		// already removed are left out of the commit info.
+		if len(w.Reps) > 0 && w.Height > 1 && w.Reps[0].App != nil {
+			if _, ok := w.Reps[0].App.StakingKeeper.GetValidatorByConsAddr(w.CommittedCtx(), sdk.ConsAddress(v.ConsAddr)); !ok {
+				continue
+			}
+		}
 		votes = append(votes, abci.VoteInfo{
 			Validator:       abci.Validator{Address: v.ConsAddr, Power: w.curVals[k]},
 			SignedLastBlock: !absent[v.Operator] && w.Height > 1,
@@ -526,15 +593,20 @@ func (w *World) beginBlock(dt time.Duration, f BlockFaults) error {
 	if len(w.Reps) > 0 {
 		w.Header.AppHash = w.Reps[0].App.LastCommitID().Hash
 	}
+	w.InBlock = true
 	w.BlockReq = abci.RequestBeginBlock{
 		Header:              w.Header,
 		LastCommitInfo:      abci.CommitInfo{Votes: votes},
 		ByzantineValidators: evs,
 	}
 	w.BlockTxs = nil
+	w.BlockRes = nil
 	for _, r := range w.Reps {
-		if r.App == nil {
-			continue // stalled / crashed replica, catches up later
+		if !r.live() {
+			continue // stalled replica, catches up later
+		}
+		if r.FirstBegin == 0 {
+			r.FirstBegin = w.Height
 		}
 		if err := w.safely(r, "begin", func() { r.App.BeginBlock(w.BlockReq) }); err != nil {
 			return err
@@ -564,7 +636,7 @@ func (w *World) safely(r *Replica, phase string, f func()) (err error) {
 	r.DB.Phase = phase
 	defer func() {
 		if x := recover(); x != nil {
-			err = &PanicError{Phase: phase, Val: fmt.Sprint(x)}
+			err = &PanicError{Phase: phase, Val: fmt.Sprint(x) + "\n" + string(debug.Stack())}
 		}
 	}()
 	f()
@@ -576,7 +648,7 @@ func (w *World) DeliverTx(bz []byte) TxResult {
 	w.BlockTxs = append(w.BlockTxs, bz)
 	var first TxResult
 	for i, r := range w.Reps {
-		if r.App == nil {
+		if !r.live() {
 			continue
 		}
 		r.DB.Phase = "deliver"
@@ -586,13 +658,20 @@ func (w *World) DeliverTx(bz []byte) TxResult {
 			first = tr
 		} else if w.Diverge == nil {
 			if d := diffTx(first, tr); d != "" {
+				if d == "gas_used" && first.Code != 0 && first.GasWanted == 0 && tr.GasWanted == 0 && (r.FirstBegin == w.Height || w.Reps[0].FirstBegin == w.Height) {
+					d += ":pre-ante-failure:first-block-after-process-start"
+				}
 				w.Diverge = &Violation{Oracle: "replica-tx-result", Signature: "tx-result-diverged:" + d,
 					Detail: fmt.Sprintf("height %d tx %d: replica 0 vs %d: %s | r0 code=%d gas=%d log=%q | r%d code=%d gas=%d log=%q",
 						w.Height, len(w.BlockTxs)-1, r.ID, d, first.Code, first.GasUsed, trunc(first.Log, 200), r.ID, tr.Code, tr.GasUsed, trunc(tr.Log, 200))}
 			}
 		}
 	}
+	if len(w.Reps) > 1 {
+		w.Stats.Oracle++
+	}
 	w.LastResult = first
+	w.BlockRes = append(w.BlockRes, first)
 	w.Stats.Txs++
 	if first.Code == 0 {
 		w.Stats.TxsOK++
@@ -633,7 +712,7 @@ func (w *World) EndBlock() ([]byte, error) {
 	var firstHash []byte
 	var firstEB abci.ResponseEndBlock
 	for i, r := range w.Reps {
-		if r.App == nil {
+		if !r.live() {
 			continue
 		}
 		var eb abci.ResponseEndBlock
@@ -644,6 +723,7 @@ func (w *World) EndBlock() ([]byte, error) {
 		if err := w.safely(r, "commit", func() { cr = r.App.Commit() }); err != nil {
 			return nil, err
 		}
+		r.Height = w.Height
 		if i == 0 {
 			firstHash, firstEB = cr.Data, eb
 			continue
@@ -675,6 +755,10 @@ func (w *World) EndBlock() ([]byte, error) {
 	}
 	w.Stats.Blocks++
 	w.Trace.Add("commit", w.Height, hex.EncodeToString(firstHash), valUpdStr(firstEB.ValidatorUpdates))
+	if w.KeepLog {
+		w.BlockLog = append(w.BlockLog, LoggedBlock{Req: w.BlockReq, Txs: w.BlockTxs, Results: w.BlockRes, ValUpd: valUpdStr(firstEB.ValidatorUpdates), AppHash: firstHash})
+	}
+	w.InBlock = false
 	return firstHash, nil
 }
 
@@ -736,7 +820,101 @@ func (w *World) NextBlock(dt time.Duration, f BlockFaults) error {
 		return err
 	}
 	w.Stats.SimTime += dt
+	if w.OnBoundary != nil {
+		if v := w.OnBoundary(w); v != nil && w.Diverge == nil {
+			w.Diverge = v
+		}
+	}
 	return w.beginBlock(dt, f)
+}
+
+// ReplayLogged executes one logged block on a lagging replica and compares
+// every result with what the rest of the network agreed on.
+func (w *World) ReplayLogged(r *Replica, lb *LoggedBlock) (*Violation, error) {
+	h := lb.Req.Header.Height
+	first := r.FirstBegin == 0
+	if first {
+		r.FirstBegin = h
+	}
+	if err := w.safely(r, "begin", func() { r.App.BeginBlock(lb.Req) }); err != nil {
+		return nil, err
+	}
+	var v *Violation
+	for i, bz := range lb.Txs {
+		r.DB.Phase = "deliver"
+		res := r.App.DeliverTx(abci.RequestDeliverTx{Tx: bz})
+		tr := TxResult{Code: res.Code, Codespace: res.Codespace, Data: res.Data, GasWanted: res.GasWanted, GasUsed: res.GasUsed, Log: res.Log}
+		if d := diffTx(lb.Results[i], tr); d != "" && v == nil {
+			if d == "gas_used" && tr.Code != 0 && tr.GasWanted == 0 && lb.Results[i].GasWanted == 0 && r.FirstBegin == h {
+				d += ":pre-ante-failure:first-block-after-process-start"
+			}
+			v = Violatef("replica-tx-result", "tx-result-diverged:"+d, "catch-up of replica %d, height %d tx %d: %s differs (network code=%d gas=%d log=%q | replica code=%d gas=%d log=%q)",
+				r.ID, h, i, d, lb.Results[i].Code, lb.Results[i].GasUsed, trunc(lb.Results[i].Log, 160), tr.Code, tr.GasUsed, trunc(tr.Log, 160))
+		}
+	}
+	var eb abci.ResponseEndBlock
+	if err := w.safely(r, "end", func() { eb = r.App.EndBlock(abci.RequestEndBlock{Height: h}) }); err != nil {
+		return nil, err
+	}
+	var cr abci.ResponseCommit
+	if err := w.safely(r, "commit", func() { cr = r.App.Commit() }); err != nil {
+		return nil, err
+	}
+	r.Height = h
+	if v == nil && valUpdStr(eb.ValidatorUpdates) != lb.ValUpd {
+		v = Violatef("replica-validator-updates", "validator-updates-diverged", "catch-up of replica %d, height %d: %s vs network %s", r.ID, h, valUpdStr(eb.ValidatorUpdates), lb.ValUpd)
+	}
+	if v == nil && !bytes.Equal(cr.Data, lb.AppHash) {
+		v = Violatef("replica-app-hash", "app-hash-diverged:"+w.diffStoresAt(r, h), "catch-up of replica %d, height %d: app hash %X vs network %X", r.ID, h, cr.Data, lb.AppHash)
+	}
+	return v, nil
+}
+
+func (w *World) diffStoresAt(r *Replica, h int64) string {
+	if w.Reps[0].Height == h && w.Reps[0] != r {
+		return w.diffStores(w.Reps[0], r)
+	}
+	return "[unknown]"
+}
+
+// CatchUp brings a stalled replica back: replays every missing committed
+// block from the block store, then the open block so far.
+func (w *World) CatchUp(r *Replica) (*Violation, error) {
+	var first *Violation
+	for r.Height < w.Height-1 {
+		lb := &w.BlockLog[r.Height] // height r.Height+1
+		v, err := w.ReplayLogged(r, lb)
+		if err != nil {
+			return nil, err
+		}
+		if v != nil && first == nil {
+			first = v
+		}
+	}
+	r.Stalled = false
+	if r.FirstBegin == 0 {
+		r.FirstBegin = w.Height
+	}
+	if err := w.safely(r, "begin", func() { r.App.BeginBlock(w.BlockReq) }); err != nil {
+		return nil, err
+	}
+	for _, bz := range w.BlockTxs {
+		r.DB.Phase = "deliver"
+		r.App.DeliverTx(abci.RequestDeliverTx{Tx: bz})
+	}
+	return first, nil
+}
+
+// Join constructs a brand-new replica from genesis (a late joiner); it is
+// stalled at height 0 until CatchUp.
+func (w *World) Join(o ReplicaOpts) *Replica {
+	r := &Replica{ID: len(w.Reps), DB: NewSimDB(), Opts: o, Stalled: true}
+	r.DB.Phase = "init"
+	r.App = w.newApp(r)
+	r.App.InitChain(w.initChainReq(w.genesis))
+	w.Reps = append(w.Reps, r)
+	w.Stats.Fault("late_joiner")
+	return r
 }
 
 // Ctx returns a throw-away cached context over the open block's state on
@@ -752,6 +930,18 @@ func (w *World) CtxOf(r *Replica) sdk.Context {
 }
 
 func (w *World) App() *app.Haqq { return w.Reps[0].App }
+
+// NewAppFor re-opens replica r's application on its disk.
+func (w *World) NewAppFor(r *Replica) *app.Haqq { return w.newApp(r) }
+
+// CommittedCtx is a throw-away cached context over the last committed state of
+// replica 0 (not the open block, not the CheckTx state).
+func (w *World) CommittedCtx() sdk.Context {
+	h := w.Header
+	ctx := w.Reps[0].App.BaseApp.NewUncachedContext(false, h)
+	c, _ := ctx.CacheContext()
+	return c.WithGasMeter(sdk.NewInfiniteGasMeter()).WithBlockGasMeter(sdk.NewInfiniteGasMeter())
+}
 
 // Balance of the native coin.
 func (w *World) Balance(addr sdk.AccAddress) *big.Int {
